@@ -1716,7 +1716,7 @@ func main() {
 			"pkg/utils/iptables/save_restore.go", "pkg/api/cniutil/cni.go", "pkg/api/k8s/k8s.go", "pkg/galaxy/server.go",
 			"pkg/ipam/floatingip/floatingip.go", "pkg/policy/policy.go"))
 		o.b.WriteString("set_option linter.unusedVariables false\nnamespace Galaxy.Generated.Total\n\n")
-		for _, g := range []func(string, *out) error{genWalk, genPage, genPolicyStr, genPodIndex, genParseKey, genIPNet, genChainLines,
+		for _, g := range []func(string, *out) error{genWalk, genWalkConfigured, genPage, genPolicyStr, genPodIndex, genParseKey, genIPNet, genChainLines,
 			genCmdDel, genNetworks, genConf, genPolicy} {
 			if err := g(repo, o); err != nil {
 				return nil, err
